@@ -204,6 +204,7 @@ def check_vector(v):
         p = iv().get_pileup()
         res["pileup.sum"] = int(bnp.compute(p.sum()))
         res["pileup.hist"] = [int(x) for x in bnp.compute(np.histogram(iv().get_pileup(), bins=4, range=(0, 4)))[0].tolist()]
+        res["pileup.hist (bins given positionally)"] = [int(x) for x in bnp.compute(np.histogram(iv().get_pileup(), 4, range=(0, 4)))[0].tolist()]
         m = iv().get_mask()
         res["mask.sum"] = int(bnp.compute(m.sum()))
         res["(pileup>1).sum"] = int(bnp.compute((iv().get_pileup() > 1).sum()))
